@@ -1260,3 +1260,290 @@ Proof.
     rewrite forallb_forall in H2. specialize (H2 _ Hin). simpl in H2.
     apply andb_true_iff in H2. destruct H2 as [A B]. apply Z.leb_le in A. apply Z.leb_le in B. auto.
 Qed.
+
+(* ==================================================== runs in which the vanilla program faults *)
+Ltac fault_cases Hs :=
+  repeat match type of Hs with
+         | context [match ?x with _ => _ end] => destruct x eqn:?; try discriminate Hs; try reflexivity
+         | context [if ?x then _ else _] => destruct x eqn:?; try discriminate Hs; try reflexivity
+         end.
+
+Lemma step_frame_fault : forall env c S ins pc pc' s s',
+  target ins = None -> is_gate ins = false ->
+  (forall r, In r (mentions ins) -> ~ In r S) ->
+  rel c S s s' -> step env ins pc s = Fault -> step env ins pc' s' = Fault.
+Proof.
+  intros env c S ins pc pc' s s' Ht Hg Hm [Hr Ha Hsc Htr] Hs.
+  assert (RD : forall r, In r (mentions ins) -> regs s' r = regs s r).
+  { intros r Hin. symmetry. apply Hr. apply Hm. exact Hin. }
+  destruct ins; simpl in Ht, Hg; try discriminate; simpl in Hs, RD |- *;
+    try discriminate Hs; unfold write_entry in *;
+    rewrite ?RD by (simpl; auto); rewrite <- ?Ha, <- ?Hsc;
+    try (fault_cases Hs; fail).
+  - (* IStore *)
+    destruct (regs s r); [|reflexivity]. destruct (regs s ix); [|reflexivity].
+    destruct (arrs s addr) as [l|]; [|reflexivity].
+    destruct (norm_index z0 (Datatypes.length l)); [discriminate Hs | reflexivity].
+  - (* IUndef *)
+    destruct (regs s ix); [|reflexivity].
+    destruct (arrs s addr) as [l|]; [|reflexivity].
+    destruct (norm_index z (Datatypes.length l)); [discriminate Hs | reflexivity].
+  - (* IDebug *) reflexivity.
+  - (* IOther *)
+    assert (Hv : map (regs s') (tops ++ inner) = map (regs s) (tops ++ inner)).
+    { apply map_ext_in. intros r Hin. apply RD. rewrite app_assoc. apply in_or_app. left. exact Hin. }
+    rewrite Hv. fault_cases Hs.
+Qed.
+
+Definition item_roles (it : bitem) : list role :=
+  match it with BRot _ r _ _ => [r] | BCrot _ a b _ _ => [a; b] | BDbg _ => [] end.
+Definition role_eqb (a b : role) : bool :=
+  match a, b with RS, RS | RA, RA | RB, RB => true | _, _ => false end.
+Definition block_reads (b : block) (r : role) : bool :=
+  existsb (fun it => keep_item false it && existsb (role_eqb r) (item_roles it)) (b_items b).
+(* every block reads both operand registers of its gate, every single-qubit row is
+   non-empty: then a gate that faults in the vanilla program (an operand register was
+   never written) also faults in its expansion *)
+Definition table_reads_operands (t : tables) : bool :=
+  forallb (fun g => negb (Nat.eqb (List.length (t_g1 t g)) 0)) [GX; GY; GZ; GH; GK; GS; GT]
+  && forallb (fun g => forallb (fun p => match t_g2 t g p with
+                                         | Some b => block_reads b RA && block_reads b RB | None => true end)
+                               [EC; CE; CC]) [Cnot; Cphase; Mov].
+
+Lemma role_eqb_eq : forall a b, role_eqb a b = true -> a = b.
+Proof. destruct a, b; simpl; intro H; try reflexivity; discriminate. Qed.
+
+Lemma run_faulted_steps : forall env p fuel pc s pcf sf,
+  run env p fuel pc s = (Faulted, pcf, sf) ->
+  exists n ins, n < fuel /\ steps env p n pc s = Some (pcf, sf) /\ nth_error p pcf = Some ins /\
+                step env ins pcf sf = Fault.
+Proof.
+  induction fuel as [|f IH]; intros pc s pcf sf H; simpl in H.
+  - destruct (nth_error p pc); discriminate.
+  - destruct (nth_error p pc) as [i|] eqn:E; [|discriminate].
+    destruct (step env i pc s) as [pc1 s1|] eqn:Es.
+    + destruct (IH _ _ _ _ H) as [n [ins [Hn [Hs [Hi Hf]]]]].
+      exists (Datatypes.S n), ins. split; [lia|]. split; [simpl; rewrite E, Es; exact Hs|]. split; assumption.
+    + inversion H; subst. exists 0, i. split; [lia|]. split; [reflexivity|]. split; assumption.
+Qed.
+
+Lemma steps_items_fault : forall env P sc r0 r1 items pc s,
+  (forall k, k < List.length items ->
+     nth_error P (pc + k) = nth_error (map (inst_item sc r0 r1) items) k) ->
+  Forall (fun it => keep_item false it = true) items ->
+  (exists it r, In it items /\ In r (item_roles it) /\ regs s (role_reg sc r0 r1 r) = None) ->
+  exists k s2 i', steps env P k pc s = Some (pc + k, s2) /\
+    regs s2 = regs s /\ arrs s2 = arrs s /\ script s2 = script s /\
+    (exists extra, trace s2 = trace s ++ extra) /\
+    nth_error P (pc + k) = Some i' /\ step env i' (pc + k) s2 = Fault.
+Proof.
+  induction items as [|it items IH]; intros pc s HP Hk [w [r [Hin [Hr Hnone]]]]; [contradiction|].
+  inversion Hk as [|? ? Hit Hk']; subst.
+  assert (H0' := HP 0 ltac:(simpl; lia)). rewrite Nat.add_0_r in H0'. simpl in H0'.
+  assert (HP' : forall k, k < List.length items ->
+            nth_error P (Datatypes.S pc + k) = nth_error (map (inst_item sc r0 r1) items) k).
+  { intros k Hlt. specialize (HP (Datatypes.S k) ltac:(simpl; lia)). simpl in HP. rewrite <- HP. f_equal. lia. }
+  (* does this item fault? *)
+  assert (Hnow : step env (inst_item sc r0 r1 it) pc s = Fault \/
+                 exists e, step env (inst_item sc r0 r1 it) pc s = Next (Datatypes.S pc) (emit s e) /\
+                           forall r', In r' (item_roles it) -> regs s (role_reg sc r0 r1 r') <> None).
+  { destruct it as [ax ro n d|ax a b n d|t]; [| |simpl in Hit; discriminate]; simpl.
+    - destruct (regs s (role_reg sc r0 r1 ro)) eqn:E; [right|left; reflexivity].
+      eexists. split; [reflexivity|]. intros r' [<-|[]]. congruence.
+    - destruct (regs s (role_reg sc r0 r1 a)) eqn:Ea; [|left; reflexivity].
+      destruct (regs s (role_reg sc r0 r1 b)) eqn:Eb; [right|left; reflexivity].
+      eexists. split; [reflexivity|]. intros r' [<-|[<-|[]]]; congruence. }
+  destruct Hnow as [Hf|[e [Hn Hall]]].
+  - exists 0, s, (inst_item sc r0 r1 it). rewrite Nat.add_0_r. simpl.
+    repeat split; try reflexivity; try assumption. exists []. rewrite app_nil_r. reflexivity.
+  - assert (Hw : exists it' r', In it' items /\ In r' (item_roles it') /\ regs (emit s e) (role_reg sc r0 r1 r') = None).
+    { destruct Hin as [<-|Hin]; [exfalso; exact (Hall r Hr Hnone)|]. exists w, r. auto. }
+    destruct (IH (Datatypes.S pc) (emit s e) HP' Hk' Hw) as [k [s2 [i' [Hs [H1 [H2 [H3 [[extra H4] [H5 H6]]]]]]]]].
+    exists (Datatypes.S k), s2, i'. replace (pc + Datatypes.S k) with (Datatypes.S pc + k) by lia.
+    split; [simpl; rewrite H0', Hn; exact Hs|].
+    repeat split; try assumption. exists (e :: extra). rewrite H4. simpl. rewrite <- app_assoc. reflexivity.
+Qed.
+
+Section SimFault.
+  Variable env : env_t.
+  Variable c : config.
+  Variables p p' : prog.
+  Variable bs : list prog.
+  Hypothesis Hlay : layout c p p' bs.
+  Hypothesis Hfresh : scratch_fresh c p.
+  Hypothesis Hreal : forall i, In i p -> real i = true.          (* no debug pseudo-instructions in the source *)
+  Hypothesis Htab : table_reads_operands (c_tab c) = true.
+
+  Let P2 := erase p'.
+  Let S := scratch_regs c p.
+
+  Lemma block_reads_witness : forall b r, block_reads b r = true ->
+    exists it, In it (filter (keep_item false) (b_items b)) /\ In r (item_roles it).
+  Proof.
+    intros b r H. unfold block_reads in H. apply existsb_exists in H. destruct H as [it [Hin H]].
+    apply andb_true_iff in H. destruct H as [Hk Hr]. apply existsb_exists in Hr. destruct Hr as [r' [Hr' He]].
+    apply role_eqb_eq in He. subst r'. exists it. split; [apply filter_In; split; assumption | exact Hr'].
+  Qed.
+
+  (* the vanilla instruction at pc faults: so does its expansion, before the block ends *)
+  Lemma fault_sim : forall pc ins s s',
+    nth_error p pc = Some ins -> step env ins pc s = Fault -> rel c S s s' ->
+    exists k pc2 s2 i', steps env P2 k (off bs pc) s' = Some (pc2, s2) /\
+      nth_error P2 pc2 = Some i' /\ step env i' pc2 s2 = Fault /\
+      agree S (regs s) (regs s2) /\ arrs s = arrs s2 /\ script s = script s2 /\
+      exists t extra, expand_trace c (trace s) = Some t /\ trace s2 = t ++ extra.
+  Proof.
+    intros pc ins s s' Hn Hs Hrel.
+    assert (Hin : In ins p) by (eapply nth_error_In; exact Hn).
+    assert (Hm : forall r, In r (mentions ins) -> ~ In r S).
+    { intros r Hr HS. exact (Hfresh r ins HS Hin Hr). }
+    pose proof (Hreal ins Hin) as Hre.
+    pose proof Hrel as [Hr Ha Hsc Htr].
+    assert (Hdone : forall i', nth_error P2 (off bs pc) = Some i' -> step env i' (off bs pc) s' = Fault ->
+              exists k pc2 s2 i'', steps env P2 k (off bs pc) s' = Some (pc2, s2) /\
+                nth_error P2 pc2 = Some i'' /\ step env i'' pc2 s2 = Fault /\
+                agree S (regs s) (regs s2) /\ arrs s = arrs s2 /\ script s = script s2 /\
+                exists t extra, expand_trace c (trace s) = Some t /\ trace s2 = t ++ extra).
+    { intros i' Hat Hf. exists 0, (off bs pc), s', i'. simpl. repeat split; try assumption.
+      exists (trace s'), []. rewrite app_nil_r. split; [exact Htr | reflexivity]. }
+    destruct (is_gate ins) eqn:Hg.
+    - destruct ins; simpl in Hg; try discriminate.
+      + (* IGate1 *)
+        simpl in Hs. destruct (regs s r) eqn:Eq; [discriminate|].
+        set (l := t_g1 (c_tab c) g).
+        assert (He : expand c (tst_at p pc) (IGate1 g r) = Ok (map (fun '(ax, n, d) => IRot ax r n d) l)) by reflexivity.
+        assert (Her : erase (map (fun '(ax, n, d) => IRot ax r n d) l) = map (fun '(ax, n, d) => IRot ax r n d) l).
+        { unfold erase. clear. induction l as [|[[ax n] d] l IH]; simpl; [reflexivity|]. rewrite IH. reflexivity. }
+        destruct (gate_block c p p' bs Hlay pc _ _ Hn He) as [Hk _].
+        { rewrite Her. apply Forall_forall. intros x Hx. apply in_map_iff in Hx.
+          destruct Hx as [[[ax n] d] [Hx _]]. subst. reflexivity. }
+        rewrite Her in Hk. rewrite map_length in Hk.
+        assert (Hne : l <> []).
+        { unfold table_reads_operands in Htab. apply andb_true_iff in Htab. destruct Htab as [H1 _].
+          rewrite forallb_forall in H1. specialize (H1 g ltac:(destruct g; simpl; tauto)).
+          fold l in H1. destruct l; [discriminate | discriminate]. }
+        destruct l as [|[[ax n] d] l'] eqn:El; [contradiction|].
+        specialize (Hk 0 ltac:(simpl; lia)). rewrite Nat.add_0_r in Hk. simpl in Hk.
+        apply (Hdone _ Hk). simpl.
+        assert (Hq : regs s' r = None) by (rewrite <- Eq; symmetry; apply Hr; apply Hm; simpl; auto).
+        rewrite Hq. reflexivity.
+      + (* IRot *)
+        simpl in Hs. destruct (regs s r) eqn:Eq; [discriminate|].
+        destruct (lay_exp _ _ _ _ Hlay pc _ Hn) as [b0 [Hb0 He0]].
+        simpl in He0. destruct (rot_angle (c_hw c) n d) as [[n' d']|] eqn:Era; [|discriminate].
+        destruct (gate_block c p p' bs Hlay pc _ [IRot ax r n' d'] Hn) as [Hk _].
+        { simpl. rewrite Era. reflexivity. }
+        { repeat constructor. }
+        specialize (Hk 0 ltac:(simpl; lia)). rewrite Nat.add_0_r in Hk. simpl in Hk.
+        apply (Hdone _ Hk). simpl.
+        assert (Hq : regs s' r = None) by (rewrite <- Eq; symmetry; apply Hr; apply Hm; simpl; auto).
+        rewrite Hq. reflexivity.
+      + (* IGate2 *)
+        assert (Hq0 : regs s' r0 = regs s r0) by (symmetry; apply Hr; apply Hm; simpl; auto).
+        assert (Hq1 : regs s' r1 = regs s r1) by (symmetry; apply Hr; apply Hm; simpl; auto).
+        destruct (lay_exp _ _ _ _ Hlay pc _ Hn) as [b0 [Hb0 He0]].
+        assert (He0' := He0). simpl in He0.
+        destruct (choose_placement g (tst_at p pc) r0 r1) as [pl|] eqn:Ecp; [|discriminate].
+        destruct (t_g2 (c_tab c) g pl) as [b|] eqn:Etab; [|discriminate].
+        assert (Hrd : block_reads b RA = true /\ block_reads b RB = true).
+        { unfold table_reads_operands in Htab. apply andb_true_iff in Htab. destruct Htab as [_ H2].
+          rewrite forallb_forall in H2. specialize (H2 g ltac:(destruct g; simpl; tauto)).
+          rewrite forallb_forall in H2. specialize (H2 pl ltac:(destruct pl; simpl; tauto)).
+          rewrite Etab in H2. apply andb_true_iff in H2. exact H2. }
+        set (items := filter (keep_item false) (b_items b)).
+        (* which operand is undefined *)
+        assert (Hund : regs s r0 = None \/ regs s r1 = None).
+        { simpl in Hs. destruct (regs s r0); [|left; reflexivity]. destruct (regs s r1); [discriminate | right; reflexivity]. }
+        destruct (uses_scratch b) eqn:Eus.
+        * destruct (unused_register (tst_at p pc)) as [sc|] eqn:Eun; [|discriminate].
+          inversion He0; subst b0.
+          unfold uses_scratch in Eus. destruct (b_scratch b) as [v|] eqn:Ebs; [|discriminate].
+          destruct (gate_block c p p' bs Hlay pc _ _ Hn He0') as [Hk Ho].
+          { rewrite erase_inst_block. apply inst_block_notarget. }
+          rewrite erase_inst_block in Hk. unfold inst_block in Hk. rewrite Ebs in Hk.
+          fold items in Hk. simpl in Hk. rewrite map_length in Hk.
+          assert (HscS : In sc S).
+          { apply scratch_at_in with pc. unfold scratch_at. rewrite Hn, Ecp, Etab.
+            unfold uses_scratch. rewrite Ebs. exact Eun. }
+          assert (Hne0 : sc <> r0) by (eapply unused_register_fresh; [exact Eun | apply le_n | exact Hn | simpl; auto]).
+          assert (Hne1 : sc <> r1) by (eapply unused_register_fresh; [exact Eun | apply le_n | exact Hn | simpl; auto]).
+          set (s1 := setreg s' sc v).
+          assert (Hs10 : regs s1 r0 = regs s r0).
+          { simpl. unfold upd. rewrite reg_eqb_neq by congruence. exact Hq0. }
+          assert (Hs11 : regs s1 r1 = regs s r1).
+          { simpl. unfold upd. rewrite reg_eqb_neq by congruence. exact Hq1. }
+          assert (Hk' : forall k, k < List.length items ->
+                    nth_error P2 (Datatypes.S (off bs pc) + k) = nth_error (map (inst_item sc r0 r1) items) k).
+          { intros k Hlt. specialize (Hk (Datatypes.S k) ltac:(lia)). simpl in Hk. rewrite <- Hk. f_equal. lia. }
+          assert (Hw : exists it r, In it items /\ In r (item_roles it) /\ regs s1 (role_reg sc r0 r1 r) = None).
+          { destruct Hund as [H0|H1].
+            - destruct (block_reads_witness b RA (proj1 Hrd)) as [it [Hi Hro]]. exists it, RA. cbn [role_reg]. rewrite Hs10. auto.
+            - destruct (block_reads_witness b RB (proj2 Hrd)) as [it [Hi Hro]]. exists it, RB. cbn [role_reg]. rewrite Hs11. auto. }
+          destruct (steps_items_fault env P2 sc r0 r1 items _ s1 Hk' (filter_keep_false_Forall _) Hw)
+            as [k [s2 [i' [Hst [H1 [H2 [H3 [[extra H4] [H5 H6]]]]]]]]].
+          exists (1 + k), (Datatypes.S (off bs pc) + k), s2, i'. split.
+          { rewrite steps_app. specialize (Hk 0 ltac:(lia)). rewrite Nat.add_0_r in Hk. cbn [nth_error] in Hk.
+            cbn [steps]. unfold P2 at 1. rewrite Hk. cbn [step]. fold s1. exact Hst. }
+          split; [exact H5|]. split; [exact H6|]. split.
+          { rewrite H1. simpl. apply agree_upd_in; [exact HscS | exact Hr]. }
+          split; [rewrite H2; exact Ha|]. split; [rewrite H3; exact Hsc|].
+          exists (trace s'), extra. split; [exact Htr | rewrite H4; reflexivity].
+        * inversion He0; subst b0.
+          unfold uses_scratch in Eus. destruct (b_scratch b) as [v|] eqn:Ebs; [discriminate|].
+          destruct (gate_block c p p' bs Hlay pc _ _ Hn He0') as [Hk Ho].
+          { rewrite erase_inst_block. apply inst_block_notarget. }
+          rewrite erase_inst_block in Hk. unfold inst_block in Hk. rewrite Ebs in Hk.
+          fold items in Hk. simpl in Hk. rewrite map_length in Hk.
+          assert (Hw : exists it r, In it items /\ In r (item_roles it) /\ regs s' (role_reg r0 r0 r1 r) = None).
+          { destruct Hund as [H0|H1].
+            - destruct (block_reads_witness b RA (proj1 Hrd)) as [it [Hi Hro]]. exists it, RA. cbn [role_reg]. rewrite Hq0. auto.
+            - destruct (block_reads_witness b RB (proj2 Hrd)) as [it [Hi Hro]]. exists it, RB. cbn [role_reg]. rewrite Hq1. auto. }
+          destruct (steps_items_fault env P2 r0 r0 r1 items _ s' Hk (filter_keep_false_Forall _) Hw)
+            as [k [s2 [i' [Hst [H1 [H2 [H3 [[extra H4] [H5 H6]]]]]]]]].
+          exists k, (off bs pc + k), s2, i'. split; [exact Hst|].
+          split; [exact H5|]. split; [exact H6|]. split; [rewrite H1; exact Hr|].
+          split; [rewrite H2; exact Ha|]. split; [rewrite H3; exact Hsc|].
+          exists (trace s'), extra. split; [exact Htr | rewrite H4; reflexivity].
+    - (* one retargeted instruction *)
+      destruct (single_block c p p' bs Hlay pc ins Hn Hg Hre) as [ins' [Hrt [Hat _]]].
+      apply (Hdone _ Hat).
+      destruct (target ins) as [t|] eqn:Et.
+      + destruct ins; simpl in Et; try discriminate; simpl in Hs; try discriminate Hs.
+        (* only IBr2 can fault *)
+        simpl in Hrt. destruct (nth_error (starts 0 bs) t0); [|discriminate]. inversion Hrt; subst ins'. simpl.
+        assert (Hqa : regs s' a = regs s a) by (symmetry; apply Hr; apply Hm; simpl; auto).
+        assert (Hqb : regs s' b = regs s b) by (symmetry; apply Hr; apply Hm; simpl; auto).
+        rewrite Hqa, Hqb. destruct (br2_taken c0 (regs s a) (regs s b)) as [[|]|]; try discriminate Hs. reflexivity.
+      + rewrite retarget_id in Hrt by exact Et. inversion Hrt; subst ins'.
+        exact (step_frame_fault env c S ins pc (off bs pc) s s' Et Hg Hm Hrel Hs).
+  Qed.
+End SimFault.
+
+(* a vanilla run that FAULTS: the NV program faults too — inside the expansion of the
+   faulting instruction — with the same arrays and script, the same registers except
+   the scratch registers, and a trace that is the expansion of the vanilla trace
+   followed by the events of the part of the block executed before the fault *)
+Theorem transpile_simulates_fault : forall env c p p' s0 s0' fuel pcf sf,
+  transpile c p = Ok p' -> scratch_fresh c p ->
+  (forall i, In i p -> real i = true) -> table_reads_operands (c_tab c) = true ->
+  rel c (scratch_regs c p) s0 s0' ->
+  tracked_run env c p fuel 0 s0 = true ->
+  run env p fuel 0 s0 = (Faulted, pcf, sf) ->
+  exists fuel' pcf' sf',
+    run env (erase p') fuel' 0 s0' = (Faulted, pcf', sf') /\
+    agree (scratch_regs c p) (regs sf) (regs sf') /\ arrs sf = arrs sf' /\ script sf = script sf' /\
+    exists t extra, expand_trace c (trace sf) = Some t /\ trace sf' = t ++ extra.
+Proof.
+  intros env c p p' s0 s0' fuel pcf sf Ht Hfr Hreal Htab Hrel Htr Hrun.
+  destruct (transpile_layout _ _ _ Ht) as [bs Hlay].
+  destruct (run_faulted_steps _ _ _ _ _ _ _ Hrun) as [n [ins [Hn [Hst [Hi Hf]]]]].
+  destruct (sim_steps env c p p' bs Hlay Hfr n fuel 0 s0 pcf sf s0' ltac:(lia) Htr Hst Hrel ltac:(lia))
+    as [m [s1 [Hm [Hrel1 _]]]].
+  rewrite off_0 in Hm.
+  destruct (fault_sim env c p p' bs Hlay Hfr Hreal Htab pcf ins sf s1 Hi Hf Hrel1)
+    as [k [pc2 [s2 [i' [Hk [Hat [Hfl [Hag [Ha [Hsc Htrc]]]]]]]]]].
+  exists (m + (k + 1)), pc2, s2. split.
+  - rewrite (run_steps _ _ _ _ _ _ _ _ Hm). rewrite (run_steps _ _ _ _ _ _ _ _ Hk).
+    simpl. rewrite Hat, Hfl. reflexivity.
+  - repeat split; assumption.
+Qed.
